@@ -1,8 +1,10 @@
+from checks import finite, triples
 from checks.generic import run_components
 
-ASSUME = ["A-INT: Python/numpy ints treated as mathematical integers", "A-FLOAT: floats treated as reals"]
+ASSUME = ["A-INT", "the C compiler is not run: validity is decided on the LNodes program (scopes, declarations) and on the formatter's text for "
+          "depth-2 trees; E2 is bounded over programs by the corpus"]
 
 
 def run(tier, seed):
-    return run_components("C19", tier, seed, ['e1', 'e2'], ASSUME,
-                          ["kernelvc (E2 walker; scoping mirrors C/formatter.py)", "UFL form data as oracle for extents"])
+    return run_components("C19", tier, seed, ["e1", finite.c19_rule_ids, lambda rep, t, s: triples.run_triples(rep, "C"), "e2"], ASSUME,
+                          ["kernelvc (E2 walker; scoping mirrors C/formatter.py)", "pycparser"])
